@@ -1,3 +1,170 @@
-import Sheens.SioCrew
+import Sheens.MCrew
+import Sheens.Proofs.SioLemmas
 
-/-! Property C14 — theorems (in progress). -/
+/-!
+# Property C14 — routing
+
+Over the models `Sio.toMachines` / `Sio.runMachines` / `Sio.bfs` (single-loop crew) and
+`MCrew.route` (mcrew service).
+-/
+
+namespace Sheens.C14
+
+open Sio
+
+/-- Ordinary routing never reaches the service machines. -/
+theorem allMachines_excludes_services (c : Crew) :
+    timersId ∉ allMachines c ∧ captainId ∉ allMachines c := by
+  simp [allMachines, List.mem_filter]
+
+/-- `allMachines` is every other machine of the crew. -/
+theorem mem_allMachines (c : Crew) (mid : String) :
+    mid ∈ allMachines c ↔ (mid ∈ c.machines.map (·.1) ∧ mid ≠ timersId ∧ mid ≠ captainId) := by
+  simp only [allMachines, List.mem_filter, Bool.and_eq_true, bne_iff_ne, ne_eq]
+
+/-- The addressees of a message: a string id names that machine (`"*"` = everybody); a list names
+    its string members; anything else (absent `to`, a non-container) is everybody. -/
+theorem toMachines_id (c : Crew) (kvs : List (String × V)) (t : String)
+    (h : lookup "to" kvs = some (.str t)) (hs : (t == "*") = false) : toMachines c (.obj kvs) = [t] := by
+  simp only [toMachines, h, hs, Bool.false_eq_true, if_false]
+
+theorem toMachines_star (c : Crew) (kvs : List (String × V))
+    (h : lookup "to" kvs = some (.str "*")) : toMachines c (.obj kvs) = allMachines c := by
+  simp [toMachines, h]
+
+theorem toMachines_list (c : Crew) (kvs : List (String × V)) (xs : List V)
+    (h : lookup "to" kvs = some (.arr xs)) (mid : String) :
+    mid ∈ toMachines c (.obj kvs) ↔ V.str mid ∈ xs := by
+  simp only [toMachines, h, List.mem_filterMap]
+  constructor
+  · rintro ⟨a, ha, hf⟩
+    cases a <;> simp at hf
+    subst hf; exact ha
+  · intro hx
+    exact ⟨_, hx, rfl⟩
+
+theorem toMachines_absent (c : Crew) (kvs : List (String × V))
+    (h : lookup "to" kvs = none) : toMachines c (.obj kvs) = allMachines c := by
+  simp only [toMachines, h]
+
+/-- Recipients are presented the message at most once: the list the crew iterates has no repetition
+    and the same members as the routing target. -/
+theorem dedup_nodup (l : List String) : (dedup l).Nodup := by
+  exact Sio.dedup_nodup l
+
+theorem mem_dedup (l : List String) (x : String) : x ∈ dedup l ↔ x ∈ l := by
+  exact Sio.mem_dedup l x
+
+/-- A machine that is not addressed is not touched by a round (no captain operation involved):
+    it sees nothing. -/
+theorem runMachines_untouched (resolve : V → Option Spec) (c : Crew) (msg : V) (mid : String)
+    (h : mid ∉ toMachines c msg) :
+    find mid (runMachines resolve (fun _ => none) c msg).1.machines = find mid c.machines := by
+  rw [runMachines_eq]
+  exact rmFold_find_notin resolve msg mid _ (c, []) (by rw [Sio.mem_dedup]; exact h)
+
+/-- An addressed ordinary machine with a spec is presented the message exactly once: after the
+    round its state is the result of exactly one walk of that one message from its previous state
+    (or unchanged if that walk went nowhere). -/
+theorem runMachines_walks_once (resolve : V → Option Spec) (c : Crew) (msg : V) (mid : String)
+    (m : Machine) (spec : Spec)
+    (hin : mid ∈ toMachines c msg) (hc : mid ≠ captainId) (ht : mid ≠ timersId)
+    (hm : find mid c.machines = some m) (hs : m.spec = some spec) :
+    let w := walk spec m.state [msg] c.limit (fun _ => false)
+    find mid (runMachines resolve (fun _ => none) c msg).1.machines =
+      some (match lastTo w.strides with
+            | some t => { m with state := stateCopy t }
+            | none => m) := by
+  intro w
+  rw [runMachines_eq]
+  have hin' : mid ∈ dedup (toMachines c msg) := by rw [Sio.mem_dedup]; exact hin
+  obtain ⟨l1, l2, hl⟩ := List.append_of_mem hin'
+  have hnd := Sio.dedup_nodup (toMachines c msg)
+  rw [hl] at hnd ⊢
+  have hn1 : mid ∉ l1 := by
+    intro hx
+    have := (List.nodup_append.mp hnd).2.2 mid hx mid (by simp)
+    exact this rfl
+  have hn2 : mid ∉ l2 := by
+    have := (List.nodup_append.mp hnd).2.1
+    exact (List.nodup_cons.mp this).1
+  simp only [List.foldl_append, List.foldl_cons]
+  rw [rmFold_find_notin resolve msg mid l2 _ hn2]
+  have hm1 := rmFold_find_notin resolve msg mid l1 (c, []) hn1
+  have hl1 := rmFold_limit resolve msg l1 (c, [])
+  rw [rmStep_find_self resolve _ msg _ mid m spec hc ht (hm1.trans hm) hs, hl1]
+  rfl
+
+/-- Breadth first: one round processes the oldest pending message, appends what was emitted to the
+    end of the queue and reports each emitted batch exactly once. -/
+theorem bfs_step (resolve : V → Option Spec) (asOp : V → Option CrewOp) (n : Nat) (c : Crew)
+    (msg : V) (pending : List V) (acc : List (List V)) :
+    bfs resolve asOp (n+1) c (msg :: pending) acc =
+      bfs resolve asOp n (runMachines resolve asOp c msg).1
+        (pending ++ (runMachines resolve asOp c msg).2.flatten)
+        (acc ++ (runMachines resolve asOp c msg).2) := by
+  simp only [bfs]
+
+/-- instrumented loop: the messages processed, in order -/
+def processed (resolve : V → Option Spec) (asOp : V → Option CrewOp) :
+    Nat → Crew → List V → List V → Option (List V)
+  | 0, _, _ :: _, _ => none
+  | _, _, [], acc => some acc
+  | n+1, c, msg :: pending, acc =>
+    let r := runMachines resolve asOp c msg
+    processed resolve asOp n r.1 (pending ++ r.2.flatten) (acc ++ [msg])
+
+/-- the loop and its instrumented twin, for any queue and accumulators -/
+theorem bfs_processed (resolve : V → Option Spec) (asOp : V → Option CrewOp) (n : Nat) :
+    ∀ (c c' : Crew) (pending : List V) (acc em : List (List V)) (accP : List V),
+      bfs resolve asOp n c pending acc = some (c', em) →
+      ∃ em', em = acc ++ em' ∧
+        processed resolve asOp n c pending accP = some (accP ++ pending ++ em'.flatten) := by
+  induction n with
+  | zero =>
+    intro c c' pending acc em accP h
+    cases pending with
+    | nil =>
+      simp only [bfs, Option.some.injEq, Prod.mk.injEq] at h
+      exact ⟨[], by simp [h.2], by simp [processed]⟩
+    | cons _ _ => simp [bfs] at h
+  | succ n ih =>
+    intro c c' pending acc em accP h
+    cases pending with
+    | nil =>
+      simp only [bfs, Option.some.injEq, Prod.mk.injEq] at h
+      exact ⟨[], by simp [h.2], by simp [processed]⟩
+    | cons msg rest =>
+      simp only [bfs] at h
+      obtain ⟨em'', he, hp⟩ := ih _ c' _ _ em (accP ++ [msg]) h
+      refine ⟨(runMachines resolve asOp c msg).2 ++ em'', by rw [he, List.append_assoc], ?_⟩
+      simp only [processed]
+      rw [hp]
+      simp [List.flatten_append, List.append_assoc]
+
+/-- Every emitted message is fed back and processed exactly once, in emission order, after
+    everything emitted before it: the processed sequence is the inbound message followed by the
+    reported emissions, flattened. -/
+theorem emitted_processed_once (resolve : V → Option Spec) (asOp : V → Option CrewOp) (n : Nat)
+    (c c' : Crew) (msg : V) (em : List (List V))
+    (h : bfs resolve asOp n c [msg] [] = some (c', em)) :
+    processed resolve asOp n c [msg] [] = some (msg :: em.flatten) := by
+  obtain ⟨em', he, hp⟩ := bfs_processed resolve asOp n c c' [msg] [] em [] h
+  simp only [List.nil_append] at he
+  subst he
+  rw [hp]; rfl
+
+/-- mcrew: a string target names exactly one machine; the reserved service names reach no machine;
+    anything else reaches every machine. -/
+theorem mcrew_route_id (s : MCrew.Svc) (kvs : List (String × V)) (t : String)
+    (h : lookup "to" kvs = some (.str t)) (hr : t ≠ "ws" ∧ t ≠ "http" ∧ t ≠ "timers") :
+    MCrew.route s (.obj kvs) = [t] := by
+  obtain ⟨h1, h2, h3⟩ := hr
+  simp [MCrew.route, h, h1, h2, h3]
+
+theorem mcrew_route_reserved (s : MCrew.Svc) (kvs : List (String × V)) (t : String)
+    (h : lookup "to" kvs = some (.str t)) (hr : t = "ws" ∨ t = "http" ∨ t = "timers") :
+    MCrew.route s (.obj kvs) = [] := by
+  rcases hr with hr | hr | hr <;> subst hr <;> simp [MCrew.route, h]
+
+end Sheens.C14
